@@ -82,7 +82,7 @@ def static_parse(kind: str, data: bytes, cfg: dict):
 def draw_config(rng, policies=(0, 1), protfilters=(7,), parsing=(True,)):
     return {
         "msgmode": rng.choices((0, 1, 2, 3), weights=(50, 15, 12, 23))[0],
-        "validate": rng.choice((1, 1, 0)),
+        "validate": rng.choice((1, 1, 1, 1, 0, 0, 0, 3, 2)),
         "parsebitfield": rng.choice((1, 1, 0)),
         "labelmsm": rng.choice((1, 1, 2)),
         "protfilter": rng.choice(protfilters),
@@ -98,7 +98,7 @@ def draw_transport(rng, wire_len, spans, kinds=("file", "socket"), ends=("close"
         return {"kind": "file"}
     sizes = sched.random_segments(rng, wire_len, spans)
     end = rng.choice(ends)
-    timeout = rng.choice((None, 2.0, 5.0)) if end == "close" else rng.choice((2.0, 5.0))
+    timeout = rng.choice((None, 2.0, 5.0)) if end != "timeout" else rng.choice((2.0, 5.0))
     return {
         "kind": "socket",
         "segments": sched.timed_segments(rng, sizes, timeout),
